@@ -278,6 +278,16 @@ func run(c *mon.Ctx) {
 			j := r.Intn(k + 1)
 			rm[k], rm[j] = rm[j], rm[k]
 		}
+		// queries before the removal must not influence the answers after it
+		if r.Bool() {
+			for _, s := range p.Streams {
+				if !m.PIDExists(s.PID) {
+					c.Fail("remove:pid-exists-before", fmt.Sprintf("PIDExists(%#x) is false for a listed stream", s.PID), nil)
+				}
+			}
+			m.Pids()
+			m.PIDExists(8191)
+		}
 		m.RemoveElementaryStreams(rm)
 		var want []ref.ES
 		for _, s := range p.Streams {
@@ -305,6 +315,28 @@ func run(c *mon.Ctx) {
 				c.Fail("remove:pid-exists", fmt.Sprintf("PIDExists(%#x)=%v after removing %v", s.PID, m.PIDExists(s.PID), rm), w)
 				return
 			}
+		}
+		// a second removal on the same object
+		var rm2 []int
+		for _, s := range want {
+			if r.Chance(3) {
+				rm2 = append(rm2, s.PID)
+				gone[s.PID] = true
+			}
+		}
+		m.RemoveElementaryStreams(rm2)
+		left := 0
+		for _, s := range p.Streams {
+			if !gone[s.PID] {
+				left++
+			}
+			if m.PIDExists(s.PID) == gone[s.PID] {
+				c.Fail("remove:pid-exists-after-second-removal", fmt.Sprintf("PIDExists(%#x)=%v after removing %v and then %v", s.PID, m.PIDExists(s.PID), rm, rm2), w)
+				return
+			}
+		}
+		if len(m.ElementaryStreams()) != left || len(m.Pids()) != left {
+			c.Fail("remove:count-after-second-removal", fmt.Sprintf("%d streams / %d PIDs left after two removals, expected %d", len(m.ElementaryStreams()), len(m.Pids()), left), w)
 		}
 		if len(rm) > 0 {
 			c.Class(fmt.Sprintf("remove/removed=%d/of=%d", min(len(gone), 4), min(len(p.Streams), 9)))
